@@ -43,7 +43,7 @@ func c08Plants() []plant {
 			return structOf(sf("A", tInt, `plenc:"1"`), sf("B", tString, []string{``, `json:"b"`, `plenc:""`}[r.IntN(3)]))
 		}},
 		{"unparsable-index", true, func(r *rand.Rand) reflect.Type {
-			bad := []string{"x", " 1", "1.0", "1 ", "99999999999999999999", "0x10", "one", "+", ",flat", "1e3", "١"}[r.IntN(11)]
+			bad := []string{"x", " 1", "1.0", "1 ", "99999999999999999999", "0x10", "one", "+", ",flat", "1e3", "١", "9223372036854775808", "18446744073709551615", "0b11", "1_0", "0o7", "--1"}[r.IntN(17)]
 			return structOf(sf("A", tInt, `plenc:"1"`), sf("B", tString, fmt.Sprintf(`plenc:%q`, bad)))
 		}},
 		{"negative-index", true, func(r *rand.Rand) reflect.Type {
